@@ -641,7 +641,11 @@ impl<'a> W<'a> {
             sizes.extend_from_slice(&sizes_t);
         }
         let w: Vec<u32> = sizes.iter().map(|x| x.1).collect();
-        let n = sizes[self.rng.weighted(&w)].0;
+        let mut n = sizes[self.rng.weighted(&w)].0;
+        if self.rng.chance(1, if self.thorough { 60 } else { 400 }) {
+            // larger than anything the repository's tests use: 1024 signatures = 2049 multiscalar terms
+            n = 1024;
+        }
         bump(&mut self.c, &format!("probe:batch_n={}", n));
         let q = 2 + self.rng.below(2) as u8;
         let nsign = 1 + self.rng.below(5) as usize;
